@@ -2,14 +2,10 @@
    histories.  Proofs only; the statements are restated in Properties/C31.v. *)
 From Coq Require Import List ZArith NArith PArith Bool Lia ZifyBool ZifyNat ZifyN Permutation.
 Import ListNotations.
-From Verif Require Import Common.Base Model.SampleBuilder
+From Verif Require Import Common.Base Model.SampleBuilder Model.SampleBuilderSpec
   Proofs.SampleBuilderArith Proofs.SampleBuilderIter Proofs.SampleBuilderMap.
 Open Scope N_scope.
 Ltac Zify.zify_post_hook ::= Z.div_mod_to_equations.
-
-(* the keys h, h+1, ... (uint16) *)
-Fixpoint keys_from (h : N) (n : nat) : list N :=
-  match n with O => [] | S k => h :: keys_from (inc16 h) k end.
 
 Lemma keys_from_length : forall n h, List.length (keys_from h n) = n.
 Proof. induction n; intros; cbn; [reflexivity|]. rewrite IHn. reflexivity. Qed.
